@@ -40,9 +40,10 @@ structure Rel (s : St) (ms : C16St) : Prop where
   okAt : ∀ (f : Nat), ms.okAt = some f → ∃ fn, s.fns[f]? = some fn ∧ fn.succeeded = true
   seen : ∀ (f : Nat) (fn : Fn), s.fns[f]? = some fn → f < ms.seenErr → fn.holds = false
   seenLe : ms.seenErr ≤ s.fns.length
+  initLt : ∀ (f : Nat) (fn : Fn), s.fns[f]? = some fn → fn.init < s.cs.length
 
 theorem rel_init : Rel model.init monC16.init := by
-  refine ⟨init_inv, rfl, ?_, by simp [monC16, model], ?_, ?_, ?_, ?_, by simp [monC16]⟩ <;>
+  refine ⟨init_inv, rfl, ?_, by simp [monC16, model], ?_, ?_, ?_, ?_, by simp [monC16], ?_⟩ <;>
     intros <;> simp_all [monC16, model]
 
 /-! ### general facts -/
@@ -231,10 +232,12 @@ theorem Rel.of_fns_same {s s' : St} {ms ms' : C16St} (hR : Rel s ms) (hi' : Inv 
     (hlen : ms'.calls.length = s'.cs.length)
     (hse : ms.seenErr ≤ ms'.seenErr)
     (hseen : ∀ (f : Nat) (fn : Fn), s.fns[f]? = some fn → f < ms'.seenErr → fn.holds = false)
-    (hsl : ms'.seenErr ≤ s.fns.length)
+    (hsl : ms'.seenErr ≤ s.fns.length) (hcl : s.cs.length ≤ s'.cs.length)
     (hcall : ∀ (t : Nat) (c : Caller) (mc : OCall), s'.cs[t]? = some c → ms'.calls[t]? = some mc →
       CallRel s' ms' c mc) : Rel s' ms' := by
-  refine ⟨hi', hlen, hcall, ?_, ?_, ?_, ?_, ?_, ?_⟩
+  refine ⟨hi', hlen, hcall, ?_, ?_, ?_, ?_, ?_, ?_, ?_⟩
+  rotate_right
+  · intro f fn hf; rw [hfns] at hf; exact Nat.lt_of_lt_of_le (hR.initLt f fn hf) hcl
   · rw [hmf, hfns]; exact hR.lenF
   · intro f fn hf; rw [hmf]; rw [hfns] at hf; exact hR.entered f fn hf
   · intro f fn mf hf hm; rw [hfns] at hf; rw [hmf] at hm; exact hR.fnR f fn mf hf hm
@@ -249,7 +252,7 @@ theorem Rel.caller_step {s s' : St} {ms : C16St} {e : Ev} (hR : Rel s ms) (hst :
     (hnew : ∀ mc, ms.calls[t]? = some mc → CallRel s ms c mc → CallRel s ms c' mc) : Rel s' ms := by
   have hi' := step_inv s e s' hR.inv hst
   subst hs'
-  refine hR.of_fns_same hi' rfl rfl rfl (by simp [hR.lenC]) (Nat.le_refl _) hR.seen hR.seenLe ?_
+  refine hR.of_fns_same hi' rfl rfl rfl (by simp [hR.lenC]) (Nat.le_refl _) hR.seen hR.seenLe (by simp) ?_
   intro u d mc hu hm
   simp only at hu
   rcases getElem?_set_cases s.cs t u c' d hu with ⟨rfl, rfl⟩ | ⟨_, hx⟩
@@ -257,5 +260,258 @@ theorem Rel.caller_step {s s' : St} {ms : C16St} {e : Ev} (hR : Rel s ms) (hst :
     exact { this with okS := this.okS }
   · have := hR.callR u d mc hx hm
     exact { this with okS := this.okS }
+
+end UtilModel.Once
+
+namespace UtilModel.Once
+open UtilModel
+
+theorem CallRel.set_pc {s : St} {ms : C16St} {c : Caller} {mc : OCall} (h : CallRel s ms c mc) (p : CS)
+    (hold : ∀ v e, c.pc ≠ .done v e) (hnew : ∀ v e, p ≠ .done v e)
+    (h1 : ∀ g, p = .awaiting g → mc.minFn ≤ g)
+    (h2 : ∀ v n, p = .retd v (.custom n) → mc.minFn < n)
+    (h3 : ∀ f g, mc.okAtInv = some f → p = .awaiting g → g = f)
+    (h4 : ∀ f v e, mc.okAtInv = some f → p = .retd v e → (v = f + 1 ∧ e = .nil) ∨ e = .canceled) :
+    CallRel s ms { c with pc := p } mc where
+  cx := h.cx
+  ret := by
+    constructor
+    · intro hr; obtain ⟨v, e, hd⟩ := h.ret.mp hr; exact absurd hd (hold v e)
+    · intro ⟨v, e, hd⟩; exact absurd hd (hnew v e)
+  minLe := h.minLe
+  minAw := h1
+  minRet := h2
+  okS := h.okS
+  okAw := h3
+  okRet := h4
+
+/-- a step of instance `f` that is invisible to the monitor -/
+theorem Rel.fn_step {s s' : St} {ms : C16St} {e : Ev} (hR : Rel s ms) (hst : step s e = some s')
+    (f : Nat) (fn fn' : Fn) (sl : Option Nat) (hf : s.fns[f]? = some fn)
+    (hs' : s' = { s with slot := sl, fns := s.fns.set f fn' })
+    (hsp : fn.st ≠ .spawned) (hsp' : fn'.st ≠ .spawned) (hinit : fn'.init = fn.init)
+    (hout : ∀ o, outRel fn o → outRel fn' o) : Rel s' ms := by
+  have hi' := step_inv s e s' hR.inv hst
+  have hlt := lt_of_getElem? hf
+  refine ⟨hi', ?_, ?_, ?_, ?_, ?_, ?_, ?_, ?_, ?_⟩
+  rotate_right
+  · intro g gn hg
+    subst hs'
+    simp only at hg ⊢
+    rcases getElem?_set_cases s.fns f g fn' gn hg with ⟨rfl, rfl⟩ | ⟨_, hx⟩
+    · rw [hinit]; exact hR.initLt g fn hf
+    · exact hR.initLt g gn hx
+  · subst hs'; exact hR.lenC
+  · intro t c mc hc hm
+    have hc' : s.cs[t]? = some c := by subst hs'; exact hc
+    exact (hR.callR t c mc hc' hm).step hR.inv hst (Nat.le_refl _)
+  · subst hs'; simp only [List.length_set]; exact hR.lenF
+  · intro g gn hg
+    subst hs'
+    simp only at hg
+    rcases getElem?_set_cases s.fns f g fn' gn hg with ⟨rfl, rfl⟩ | ⟨_, hx⟩
+    · have := (hR.entered g fn hf).mpr hsp
+      exact ⟨fun _ => hsp', fun _ => this⟩
+    · exact hR.entered g gn hx
+  · intro g gn mf hg hm
+    subst hs'
+    simp only at hg
+    rcases getElem?_set_cases s.fns f g fn' gn hg with ⟨rfl, rfl⟩ | ⟨_, hx⟩
+    · obtain ⟨h1, h2⟩ := hR.fnR g fn mf hf hm
+      exact ⟨by rw [hinit]; exact h1, hout _ h2⟩
+    · exact hR.fnR g gn mf hx hm
+  · intro g hg
+    obtain ⟨gn, h1, h2⟩ := hR.okAt g hg
+    exact succeeded_step s s' e hR.inv hst g gn h1 h2
+  · intro g gn hg hlt'
+    have hgl : g < s.fns.length := by
+      have := lt_of_getElem? hg; subst hs'; simpa using this
+    obtain ⟨go, hgo⟩ : ∃ go, s.fns[g]? = some go := ⟨s.fns[g], by simp [hgl]⟩
+    obtain ⟨gn', h1, h2⟩ := holds_false_step s s' e hR.inv hst g go hgo (hR.seen g go hgo hlt')
+    rw [hg] at h1; cases h1; exact h2
+  · subst hs'; simp only [List.length_set]; exact hR.seenLe
+
+theorem sim_internal (s : St) (e : Ev) (s' : St) (ms : C16St) (hR : Rel s ms)
+    (hst : step s e = some s') (hobs : e.obs = none) : Rel s' ms := by
+  have hi := hR.inv
+  cases e with
+  | inv t => simp [Ev.obs] at hobs
+  | ret t v e => simp [Ev.obs] at hobs
+  | envCancel t => simp [Ev.obs] at hobs
+  | cbin f t => simp [Ev.obs] at hobs
+  | cbout f o => simp [Ev.obs] at hobs
+  | quiesce B => simp [Ev.obs] at hobs
+  | chkCtx t =>
+    have hst0 := hst
+    simp only [step] at hst
+    split at hst <;> try simp at hst
+    rename_i c hc
+    split at hst <;> try simp at hst
+    rename_i hpc
+    split at hst <;> simp at hst <;> subst hst
+    · refine hR.caller_step hst0 t c { c with pc := .retd 0 .canceled } hc rfl ?_
+      intro mc _ h
+      exact h.set_pc _ (by rw [hpc]; simp) (by simp) (by simp) (by simp) (by simp)
+        (by intro f v e _ h; cases h; exact Or.inr rfl)
+    · refine hR.caller_step hst0 t c { c with pc := .atLock } hc rfl ?_
+      intro mc _ h
+      exact h.set_pc _ (by rw [hpc]; simp) (by simp) (by simp) (by simp) (by simp) (by simp)
+  | lockCS t =>
+    have hst0 := hst
+    simp only [step] at hst
+    split at hst <;> try simp at hst
+    rename_i c hc
+    split at hst <;> try simp at hst
+    rename_i hpc
+    split at hst <;> simp at hst <;> subst hst
+    · rename_i f hslot
+      have hfl := hi.slotLast f hslot
+      obtain ⟨fn, hf⟩ : ∃ fn, s.fns[f]? = some fn := ⟨s.fns[f]'(by omega), by simp⟩
+      have hh := (hi.holds f fn hf).mpr hslot
+      refine hR.caller_step hst0 t c { c with pc := .awaiting f } hc rfl ?_
+      intro mc _ h
+      refine h.set_pc _ (by rw [hpc]; simp) (by simp) ?_ (by simp) ?_ (by simp)
+      · intro g hg; cases hg
+        have : ¬ f < ms.seenErr := by
+          intro hlt; have := hR.seen f fn hf hlt; simp [hh] at this
+        have := h.minLe; omega
+      · intro f0 g hok hg; cases hg
+        obtain ⟨fn0, h1, h2⟩ := h.okS f0 hok
+        have := (hi.holds f0 fn0 h1).mp (succeeded_holds fn0 h2)
+        rw [hslot] at this; cases this; rfl
+    · rename_i hslot
+      -- a new instance is started; the monitor does not see it before it enters the function
+      have hi' := step_inv s _ _ hi hst0
+      have hlt := lt_of_getElem? hc
+      refine ⟨hi', by simp [setPc, hR.lenC], ?_, ?_, ?_, ?_, ?_, ?_, ?_, ?_⟩
+      rotate_right
+      · intro f fn hf
+        simp only [setPc, List.length_set] at hf ⊢
+        rcases getElem?_snoc_cases _ _ _ _ hf with ⟨_, hx⟩ | ⟨rfl, rfl⟩
+        · exact hR.initLt f fn hx
+        · exact hlt
+      · intro u d mc hu hm
+        simp only [setPc] at hu
+        rcases getElem?_set_cases s.cs t u _ d hu with ⟨rfl, rfl⟩ | ⟨_, hx⟩
+        · have h := (hR.callR u c mc hc hm).step hi hst0 (Nat.le_refl _)
+          refine h.set_pc _ (by rw [hpc]; simp) (by simp) ?_ (by simp) ?_ (by simp)
+          · intro g hg; cases hg; have := h.minLe; have := hR.seenLe; omega
+          · intro f0 g hok hg
+            obtain ⟨fn0, h1, h2⟩ := (hR.callR u c mc hc hm).okS f0 hok
+            have := (hi.holds f0 fn0 h1).mp (succeeded_holds fn0 h2)
+            rw [hslot] at this; cases this
+        · exact (hR.callR u d mc hx hm).step hi hst0 (Nat.le_refl _)
+      · simp [setPc]; have := hR.lenF; omega
+      · intro f fn hf
+        simp only [setPc] at hf
+        rcases getElem?_snoc_cases _ _ _ _ hf with ⟨_, hx⟩ | ⟨rfl, rfl⟩
+        · exact hR.entered f fn hx
+        · have := hR.lenF; simp; omega
+      · intro f fn mf hf hm
+        simp only [setPc] at hf
+        rcases getElem?_snoc_cases _ _ _ _ hf with ⟨_, hx⟩ | ⟨rfl, rfl⟩
+        · exact hR.fnR f fn mf hx hm
+        · have := hR.lenF
+          have := lt_of_getElem? hm
+          omega
+      · intro f hf
+        obtain ⟨fn, h1, h2⟩ := hR.okAt f hf
+        exact ⟨fn, getElem?_snoc_left _ _ _ _ h1, h2⟩
+      · intro f fn hf hlt'
+        simp only [setPc] at hf
+        rcases getElem?_snoc_cases _ _ _ _ hf with ⟨_, hx⟩ | ⟨rfl, rfl⟩
+        · exact hR.seen f fn hx hlt'
+        · have := hR.seenLe; omega
+      · simp [setPc]; have := hR.seenLe; omega
+  | sel t br =>
+    have hst0 := hst
+    simp only [step] at hst
+    split at hst <;> try simp at hst
+    rename_i c hc
+    split at hst <;> try simp at hst
+    rename_i f hpc
+    cases br with
+    | ctx =>
+      simp only at hst
+      split at hst <;> simp at hst; subst hst
+      refine hR.caller_step hst0 t c { c with pc := .top } hc rfl ?_
+      intro mc _ h
+      exact h.set_pc _ (by rw [hpc]; simp) (by simp) (by simp) (by simp) (by simp) (by simp)
+    | res =>
+      simp only at hst
+      split at hst <;> simp at hst <;> subst hst
+      · refine hR.caller_step hst0 t c { c with pc := .top } hc rfl ?_
+        intro mc _ h
+        exact h.set_pc _ (by rw [hpc]; simp) (by simp) (by simp) (by simp) (by simp) (by simp)
+      · rename_i v e hne hres
+        obtain ⟨fn, hf, hr⟩ := resOf_some s f _ hres
+        obtain ⟨w1, w2, -⟩ := hi.wf f fn hf
+        refine hR.caller_step hst0 t c { c with pc := .retd v e } hc rfl ?_
+        intro mc _ h
+        refine h.set_pc _ (by rw [hpc]; simp) (by simp) (by simp) ?_ ?_ ?_
+        · intro v' n hp; cases hp
+          have hm := h.minAw f hpc
+          rcases w2 v _ hr with ⟨h1, _⟩ | ⟨_, h1 | h1⟩
+          · cases h1
+          · cases h1; omega
+          · cases h1
+        · intro f0 g _ hp; cases hp
+        · intro f0 v' e' hok hp; cases hp
+          have hff := h.okAw f0 f hok hpc
+          subst hff
+          obtain ⟨fn0, h1, h2⟩ := h.okS f hok
+          rw [hf] at h1; cases h1
+          unfold Fn.succeeded at h2
+          have hfin := w1.mp (by simp [hr])
+          rw [hfin, hr] at h2
+          rcases w2 v e hr with ⟨h3, h4⟩ | ⟨_, h3⟩
+          · exact Or.inl ⟨h4, h3⟩
+          · rcases h3 with h3 | h3 <;> subst h3 <;> simp at h2
+  | fnClear f =>
+    have hst0 := hst
+    simp only [step] at hst
+    split at hst <;> try simp at hst
+    rename_i fn hf
+    split at hst <;> try simp at hst
+    rename_i e hfs
+    subst hst
+    refine hR.fn_step hst0 f fn { fn with st := .cleared e } _ hf rfl (by rw [hfs]; simp) (by simp) rfl ?_
+    intro o ho
+    simp only [outRel, hfs] at ho ⊢
+    exact ho
+  | fnCheck f =>
+    have hst0 := hst
+    simp only [step] at hst
+    split at hst <;> try simp at hst
+    rename_i fn hf
+    split at hst <;> try simp at hst
+    rename_i e hfs
+    subst hst
+    refine hR.fn_step hst0 f fn { fn with st := .decided _ } s.slot hf rfl (by rw [hfs]; simp) (by simp) rfl ?_
+    intro o ho
+    simp only [outRel, hfs] at ho ⊢
+    refine ⟨e, ho, ?_⟩
+    split
+    · exact Or.inl rfl
+    · exact Or.inr rfl
+  | fnPublish f =>
+    have hst0 := hst
+    simp only [step] at hst
+    split at hst <;> try simp at hst
+    rename_i fn hf
+    split at hst <;> simp at hst <;> subst hst
+    · rename_i v hfs
+      refine hR.fn_step hst0 f fn { fn with st := .finished, res := some (v, .nil) } s.slot hf rfl
+        (by rw [hfs]; simp) (by simp) rfl ?_
+      intro o ho
+      simp only [outRel, hfs] at ho ⊢
+      exact ho
+    · rename_i e hfs
+      have he := (hi.wf f fn hf).2.2.2.2 e hfs
+      refine hR.fn_step hst0 f fn { fn with st := .finished, res := some (0, e) } s.slot hf rfl
+        (by rw [hfs]; simp) (by simp) rfl ?_
+      intro o ho
+      simp only [outRel, hfs] at ho ⊢
+      rcases he with h | h <;> subst h <;> exact ho
 
 end UtilModel.Once
